@@ -455,6 +455,13 @@ def build_wavefront(lentil, wt, body, v=0, reg=REG0):
     return w
 
 
+def propagate_call_args(m, v, reg, typed=True):
+    """(pixelscale, oversample, shape) that do_propagate passes for variant v"""
+    form, os_, shape = _prop_args(DFT_VARIANTS if m == 'dft' else FFT_VARIANTS, v)
+    du = 5e-6 * os_ if reg[2] else _du(reg, form, os_)
+    return du, os_, shape
+
+
 def do_propagate(lentil, m, w, v, reg=REG0):
     if reg[2] and str(w.ptype) != 'none':
         raise GeneratorError('a typed loose wavefront (no focal length) is never propagated by this harness')
